@@ -100,7 +100,7 @@ func negoReq(row negoRow) map[string]any {
 
 // negoTable replays every row of the negotiation table through the real handshake.
 func negoTable(c *core.Ctx, pl *pool) error {
-	res, err := c.MustTLC(core.TLCOpts{Module: "MC_PacketConnNego", Cfg: "MC_PacketConnNego.cfg", Workers: 2})
+	res, err := c.MustTLC(core.TLCOpts{Module: "MC_PacketConnNego", Cfg: "MC_PacketConnNego.cfg", Workers: 2, HeapMB: 512})
 	if err != nil {
 		return err
 	}
@@ -138,6 +138,7 @@ func negoTable(c *core.Ctx, pl *pool) error {
 				"nonce negotiation disagrees with spec/PacketConn.tla (NegoOutcome): "+bad2, map[string]any{"request": q, "specified": e, "observed": r2})
 		}
 	}
+	c.Logf("negotiation table: %d rows replayed", res.NEmits)
 	c.Set("negotiation_rows_by_outcome", outs)
 	for _, k := range []string{"plain", "aes", "client_refuses", "server_refuses", "key_mismatch"} {
 		if outs[k] == 0 {
